@@ -133,6 +133,26 @@ def run(ctx):
                 elif nm in ("std::option::Option::or_else", "std::option::Option::unwrap_or", "std::option::Option::map_or") and t[3]:
                     okk = rec_call_on_prev(v, t[3][0], fname, "Key")
             if not okk:
+                # `match prev.first_field() { Some(f) => Some(f), None => Some(key) }`
+                kt = v.variant_target(info, "Key")
+                for x in sorted(skeleton.dominated(v, kt)) if kt is not None else []:
+                    i3 = v.switch_info(x)
+                    if not i3 or i3["kind"] != "discr" or i3["place"] is None:
+                        continue
+                    src = canon(v, v.origin_place(i3["place"]))
+                    if not rec_call_on_prev(v, src, fname, "Key"):
+                        continue
+                    st_, nt_ = v.variant_target(i3, "Some"), v.variant_target(i3, "None")
+                    if st_ is None or nt_ is None:
+                        continue
+                    s_only = v.reachable(st_) - v.reachable(nt_)
+                    n_only = v.reachable(nt_) - v.reachable(st_)
+                    sa = assigned_in(v, s_only)
+                    na = assigned_in(v, n_only)
+                    oks = len(sa) == 1 and (sa[0][1] == src or (sa[0][1][0] == "agg" and sa[0][1][4] == "Some" and sa[0][1][2][0][0] == "field" and sa[0][1][2][0][2] == "Some" and sa[0][1][2][0][1] == src))
+                    okn = len(na) == 1 and na[0][1][0] == "agg" and na[0][1][4] == "Some" and is_self_field(na[0][1][2][0], "Key", "key")
+                    okk = oks and okn
+            if not okk:
                 fs.append(fnd(rule, v, "for a key step the first key of the ancestors does not take precedence over this key", None, fmt(k[0][1]) if k else ""))
         res.add(rule, 3, fs)
     # ---- OWNED
